@@ -5,6 +5,8 @@ func init() {
 		ID:    "C19",
 		Title: "Token positions are exact, ordered and tile the source",
 		Rules: []string{
+			"R-LEXINPUT: lexer.New stores its argument as the input unchanged and every caller hands it the text it was given (a parameter handed through, or a file's content as read)",
+			"R-PREFIXKW: the continuation predicate for @else/@break/@continue is decided by constant evaluation (a keyword that swallows more letters leaves a gap in the token stream)",
 			"R-ORDERINGS: Position.Contains only compares its inputs; evaluated over value assignments realising every weak ordering it equals inclusive lexicographic containment (decides the function for all inputs)",
 			"R-TOKPOS: the position counters are written only by readChar (start fields only by tokenBegins); tokens are built only by newToken, whose start comes from tokenBegins and whose end from the last consumed byte (current position for EOF); every newToken call is preceded by tokenBegins on all paths and no constructor reads input before taking the start; ErrorLine = EndLine + 1",
 		},
@@ -12,6 +14,8 @@ func init() {
 		NotDecided:  "TODO",
 		Assumptions: trustedBase,
 		Run: func(m *Model, s *Sink) {
+			m.RunLexInput(s, "R-LEXINPUT")
+			m.RunPrefixKW(s, "R-PREFIXKW") // the tokens tile the input: a directive keyword ends where the table says it ends
 			m.RunOrderings(s, "R-ORDERINGS")
 			m.RunTokPos(s, "R-TOKPOS")
 		},
